@@ -67,7 +67,11 @@ CLAIMED.update({
  "C21": h4("exploration", "After every admin request (valid or invalid, incl. foreign keys to the same table and must-fail requests): refused => physical snapshot unchanged (incl. index flags); succeeded => must-fail rules respected, every table has a key, index columns exist, Fk/FkToHere mutually consistent with correct index numbers, schema and info tables agree, nrows/size match, rows through every index equal the model, schema text re-parses; the links recomputed by linkFkeys after restart must equal the incrementally maintained ones.", "schema invariants + refused-means-unchanged + restart differential"),
 })
 
+H6_NOTE = "Trusted: Go toolchain, testing/synctest and crypto/tls; the instrumenter and sim libraries; the simulated transport (fragmentation, short reads, delays; no resets, duplication or reordering); the client half of the hello/TLS upgrade is a copy of ConnectClient's code after dialing; sampling, not enumeration."
 CLAIMED.update({
+ "C40": ("exploration", "Differential simulation: 1-4 sessions on one simulated connection run generated programs (transactions, queries, gets, outputs up to 900 KB, updates, erases, query statements, get-one, admin requests) through the real client, TLS, mux, workers and server command handlers while the same programs run directly on a DbmsLocal of an identical twin database; every operation's logical result or error must be equal, each session must receive exactly its own responses, and both databases must have equal contents at the end. The tape decides message fragmentation, short reads, delivery delays and every interleaving of sessions, mux reader, workers and both database pipelines. A clean batch is evidence, not proof.", H6_NOTE, "deterministic simulation: real client and server over a simulated transport, differential against direct local access", "6 (H6), 7 (C40)"),
+ "C41": ("exploration", "A database with users; one connection authenticates properly and keeps working; 1-3 unauthenticated connections send generated sequences over every typed request and raw transaction / query / cursor commands, plus authentication attempts (wrong password, right password over own fresh / used nonce, over another connection's nonce, made up token, tokens of the authenticated party) with think times that let nonces and tokens expire. Oracle: every request outside {Auth, Nonce, SessionId, LibGet, Libraries, EndSession} is refused, Auth succeeds only with the right hash over the connection's own unused fresh nonce (or a token handed to an authenticated party), the database contents do not change and the authenticated session keeps working. A clean batch is evidence, not proof.", H6_NOTE, "deterministic simulation: generated protocol sessions on unauthorized connections against the real server", "6 (H6), 7 (C41)"),
+ "C43": ("exploration", "LIMITED claim: with a scheduling point before every statement of core/suobject.go and every lock operation, 2-4 threads perform single-call operations on one shared SuObject; oracles: no Go run-time error, and the recorded history (incl. the final contents) is linearizable (porcupine) against the same code run single-threaded. This decides the crash / torn-result part of the property at sequentially consistent granularity; it cannot observe data races in the Go memory model sense (tasks are serialised by the simulator), which need the race detector on real parallel executions - outside this technique. Records, closures and classes are not covered.", "Trusted: Go toolchain and testing/synctest; instrumenter (statement yields) and simsync; porcupine v1.3.0; sequential SuObject semantics as the specification.", "deterministic simulation: statement-level interleaving of shared-object methods + porcupine linearizability check", "6 (H7), 7 (C43)"),
  "C34": ("exploration",
    "Seeded search over interleavings of the real server ticker, the real client expiry task, 1-4 goroutines sharing the client side batching and 0-3 direct server callers, with the simulated clock started at any millisecond, advanced by 1 ms - 30 s between calls and jumped by up to +-1 h. Oracles: all timestamps ever returned are pairwise distinct (as packed values) and each caller's sequence is strictly increasing under the language's comparison.",
    "Trusted: Go toolchain and testing/synctest (fake clock); simsync; one batching client per run, other clients modelled as direct server callers; the client reaches the server through a stub IDbms (the wire protocol is C40's subject).",
